@@ -14,6 +14,7 @@
   transfers them to the entry point `evaluate` through `evaluate_detail_spec`.
 -/
 import LDEval.Proofs.Refine
+import LDEval.Proofs.Prereq
 
 namespace LD.C02
 
@@ -419,6 +420,1225 @@ example (rec : Spec.FlagRec) (seg : Spec.SegRec) :
 
 end Examples
 
+/-! ## Strengthened statements (theorem audit) -/
+
+/-! The audit (C02 #4–#6, G1) found the stage semantics stated on `Spec.*` only and transferred to
+`evaluate` for OFF and for TARGET_MATCH without prerequisites.  This part adds
+
+* A1–A3: the missing Spec-level pieces (aborting prerequisites, erroring rules, the converse for the
+  rule loop) and the whole decision order of one flag as a single iff (`evalBody_iff_stage`);
+* A4: the same at the entry point: `evaluate_decision_order` (existence and uniqueness of the
+  decided detail, all eight reason/value fields), `evaluate_reason_inv` (the converse, per reason
+  kind) and one flat theorem per stage, WITH prerequisites;
+* A5: prerequisites "met"/"unmet" expressed through `evaluate` of the prerequisite itself;
+* A6: `Result.isExperiment`, which the bridge `evaluate_detail_spec` leaves out;
+* A7: the big-segments status and the side channels are untouched by the stages that do not reach
+  segments (off, prerequisite failed, target match). -/
+
+/-! ### A1. Aborting prerequisites -/
+
+/-- Prerequisite `p` aborts the whole evaluation: the flag the store returns is already on the chain
+(a cycle), or its own evaluation aborted. -/
+def Aborts (rec : Spec.FlagRec) (env : Env) (chain : List String) (p : Prereq) : Prop :=
+  ∃ pf, env.store.findFlag p.key = some pf ∧
+    (chain.contains pf.key = true ∨
+      (chain.contains pf.key = false ∧ ∃ d, rec pf chain = some (d, false)))
+
+/-- An aborting prerequisite at the head of the list makes the loop return `malformed` at once: Go's
+`checkPrerequisites` returns `ok = false` and the later prerequisites are never looked at. -/
+theorem prereqLoop_aborts_cons (p : Prereq) (ps : List Prereq) (h : Aborts rec env chain p) :
+    Spec.prereqLoop rec env chain (p :: ps) = .malformed := by
+  obtain ⟨pf, h1, h2 | ⟨h2, d, h3⟩⟩ := h
+  · simp only [Spec.prereqLoop, h1, h2, ↓reduceIte]
+  · simp only [Spec.prereqLoop, h1, h2, h3, Bool.false_eq_true, ↓reduceIte, Bool.not_false]
+
+/-- If every prerequisite before `p` is met and `p` aborts (cycle, or its own evaluation was
+aborted), the loop aborts: the whole `Evaluate` call becomes MALFORMED_FLAG. -/
+theorem prereq_first_aborts (ps pre : List Prereq) (p : Prereq) (post : List Prereq)
+    (hps : ps = pre ++ p :: post) (hpre : ∀ q ∈ pre, Met rec env chain q)
+    (hp : Aborts rec env chain p) :
+    Spec.prereqLoop rec env chain ps = .malformed := by
+  subst hps
+  induction pre with
+  | nil => exact prereqLoop_aborts_cons p post hp
+  | cons q pre ih =>
+    rw [List.cons_append, prereqLoop_met_cons q _ (hpre q (List.mem_cons_self ..))]
+    exact ih (fun q' hq' => hpre q' (List.mem_cons_of_mem _ hq'))
+
+/-- Converse: an aborted prerequisite loop stopped at a definite prerequisite `p`, everything listed
+before `p` was met, and `p` is a cycle back into the chain or a flag whose own evaluation aborted.
+-/
+theorem prereq_malformed_inv (ps : List Prereq)
+    (h : Spec.prereqLoop rec env chain ps = .malformed) :
+    ∃ pre p post, ps = pre ++ p :: post ∧ (∀ q ∈ pre, Met rec env chain q) ∧
+      Aborts rec env chain p := by
+  induction ps with
+  | nil => simp [Spec.prereqLoop] at h
+  | cons p ps ih =>
+    unfold Spec.prereqLoop at h
+    split at h
+    · cases h
+    · next pf hf =>
+      split at h
+      · next hch => exact ⟨[], p, ps, rfl, by simp, pf, hf, Or.inl hch⟩
+      · next hch =>
+        split at h
+        · cases h
+        · next d ok hr =>
+          split at h
+          · next hok =>
+            have hok' : ok = false := by simpa using hok
+            subst hok'
+            exact ⟨[], p, ps, rfl, by simp, pf, hf, Or.inr ⟨by simpa using hch, d, hr⟩⟩
+          · next hok =>
+            have hok' : ok = true := by simpa using hok
+            subst hok'
+            split at h
+            · next hc =>
+              obtain ⟨pre, p', post, hps, hpre, hab⟩ := ih h
+              refine ⟨p :: pre, p', post, by rw [hps]; rfl, ?_, hab⟩
+              intro q hq
+              rcases List.mem_cons.1 hq with rfl | hq
+              · exact ⟨pf, d, hf, by simpa using hch, hr, (prereqCond_iff pf d q).1 hc⟩
+              · exact hpre q hq
+            · cases h
+
+
+/-! ### A2. The rule loop: erroring rules and the converse -/
+
+/-- The first rule whose clauses do not simply evaluate to "no match" decides: if that rule's
+clauses raise an evaluation error `e`, the rule loop stops with an error detail of `e`'s kind and
+`ok = false` (Go: `return EvaluationDetail{}, false` after `errorKindForError`), later rules are not
+tried. -/
+theorem rule_error (rules pre : List FlagRule) (r : FlagRule) (post : List FlagRule) (i : Nat)
+    (e : EvalErr) (hr : rules = pre ++ r :: post)
+    (hpre : ∀ q ∈ pre, Spec.clausesMatch seg env [] q.clauses = .ok false)
+    (hm : Spec.clausesMatch seg env [] r.clauses = .err e) :
+    Spec.rulesLoop seg env f rules i = some (Detail.forError e.kind, false) := by
+  subst hr
+  induction pre generalizing i with
+  | nil => simp [Spec.rulesLoop, hm]
+  | cons q pre ih =>
+    have hq := hpre q (List.mem_cons_self ..)
+    simp only [List.cons_append, Spec.rulesLoop, hq]
+    exact ih (i + 1) (fun q' hq' => hpre q' (List.mem_cons_of_mem _ hq'))
+
+/-- Converse for the rule loop, all three exits: a completed `rulesLoop` either found a FIRST
+matching rule (all earlier ones evaluated to "no match") and returns that rule's variation-or-
+rollout with RULE_MATCH, its index and id; or hit an erroring rule first; or no rule matched and it
+returns the fallthrough. -/
+theorem rulesLoop_inv (rules : List FlagRule) (i : Nat) (d : Detail) (ok : Bool)
+    (h : Spec.rulesLoop seg env f rules i = some (d, ok)) :
+    (∃ pre r post, rules = pre ++ r :: post ∧
+        (∀ q ∈ pre, Spec.clausesMatch seg env [] q.clauses = .ok false) ∧
+        Spec.clausesMatch seg env [] r.clauses = .ok true ∧
+        d = Spec.getValueForVR env f r.vr (.ruleMatch (i + pre.length) r.id) ∧ ok = true) ∨
+    (∃ pre r post e, rules = pre ++ r :: post ∧
+        (∀ q ∈ pre, Spec.clausesMatch seg env [] q.clauses = .ok false) ∧
+        Spec.clausesMatch seg env [] r.clauses = .err e ∧
+        d = Detail.forError e.kind ∧ ok = false) ∨
+    ((∀ q ∈ rules, Spec.clausesMatch seg env [] q.clauses = .ok false) ∧
+        d = Spec.getValueForVR env f f.fallthrough .fallthrough ∧ ok = true) := by
+  induction rules generalizing i with
+  | nil =>
+    simp only [Spec.rulesLoop, Option.some.injEq, Prod.mk.injEq] at h
+    exact Or.inr (Or.inr ⟨by simp, h.1.symm, h.2.symm⟩)
+  | cons r rules ih =>
+    unfold Spec.rulesLoop at h
+    split at h
+    · next e he =>
+      simp only [Option.some.injEq, Prod.mk.injEq] at h
+      exact Or.inr (Or.inl ⟨[], r, rules, e, rfl, by simp, he, h.1.symm, h.2.symm⟩)
+    · cases h
+    · next he =>
+      simp only [Option.some.injEq, Prod.mk.injEq] at h
+      exact Or.inl ⟨[], r, rules, rfl, by simp, he, by simpa using h.1.symm, h.2.symm⟩
+    · next he =>
+      have hcons : ∀ pre : List FlagRule, (∀ q ∈ pre, Spec.clausesMatch seg env [] q.clauses = .ok false) →
+          ∀ q ∈ r :: pre, Spec.clausesMatch seg env [] q.clauses = .ok false := by
+        intro pre hpre q hq
+        rcases List.mem_cons.1 hq with rfl | hq
+        · exact he
+        · exact hpre q hq
+      rcases ih (i + 1) h with ⟨pre, r', post, hr, hpre, hm, hd, hok⟩ | ⟨pre, r', post, e, hr, hpre, hm, hd, hok⟩ |
+          ⟨hall, hd, hok⟩
+      · refine Or.inl ⟨r :: pre, r', post, by rw [hr]; rfl, hcons pre hpre, hm, ?_, hok⟩
+        rw [hd, List.length_cons, Nat.add_assoc, Nat.add_comm 1]
+      · exact Or.inr (Or.inl ⟨r :: pre, r', post, e, by rw [hr]; rfl, hcons pre hpre, hm, hd, hok⟩)
+      · exact Or.inr (Or.inr ⟨hcons rules hall, hd, hok⟩)
+
+/-! ### A3. The decision order of one flag as a single statement -/
+
+/-- The decision table of `evaluationScope.evaluate`, written as data: which stage decides, under
+which conditions, and what detail (and `ok` bit) it yields.  Seven mutually exclusive rows in the
+order the Go code tests them: off; first unmet prerequisite (all earlier ones met); first aborting
+prerequisite; individual target; first matching rule; first erroring rule; fallthrough.  `rec`/`seg`
+are the nested flag / segment evaluators. -/
+inductive StageOf (rec : Spec.FlagRec) (seg : Spec.SegRec) (env : Env) (f : Flag)
+    (chain : List String) : Detail → Bool → Prop
+  | off : f.on = false → StageOf rec seg env f chain (Spec.getOffValue f .off) true
+  | prereqFailed (pre : List Prereq) (p : Prereq) (post : List Prereq) :
+      f.on = true → f.prerequisites = pre ++ p :: post →
+      (∀ q ∈ pre, Met rec env (chain ++ [f.key]) q) → Unmet rec env (chain ++ [f.key]) p →
+      StageOf rec seg env f chain (Spec.getOffValue f (.prereqFailed p.key)) true
+  | prereqAbort (pre : List Prereq) (p : Prereq) (post : List Prereq) :
+      f.on = true → f.prerequisites = pre ++ p :: post →
+      (∀ q ∈ pre, Met rec env (chain ++ [f.key]) q) → Aborts rec env (chain ++ [f.key]) p →
+      StageOf rec seg env f chain (Detail.forError .malformedFlag) false
+  | target (v : Int) :
+      f.on = true → (∀ q ∈ f.prerequisites, Met rec env (chain ++ [f.key]) q) →
+      anyTargetMatch env.ctx f = some v →
+      StageOf rec seg env f chain (Spec.getVariation f v .targetMatch) true
+  | rule (pre : List FlagRule) (r : FlagRule) (post : List FlagRule) :
+      f.on = true → (∀ q ∈ f.prerequisites, Met rec env (chain ++ [f.key]) q) →
+      anyTargetMatch env.ctx f = none → f.rules = pre ++ r :: post →
+      (∀ q ∈ pre, Spec.clausesMatch seg env [] q.clauses = .ok false) →
+      Spec.clausesMatch seg env [] r.clauses = .ok true →
+      StageOf rec seg env f chain (Spec.getValueForVR env f r.vr (.ruleMatch pre.length r.id)) true
+  | ruleError (pre : List FlagRule) (r : FlagRule) (post : List FlagRule) (e : EvalErr) :
+      f.on = true → (∀ q ∈ f.prerequisites, Met rec env (chain ++ [f.key]) q) →
+      anyTargetMatch env.ctx f = none → f.rules = pre ++ r :: post →
+      (∀ q ∈ pre, Spec.clausesMatch seg env [] q.clauses = .ok false) →
+      Spec.clausesMatch seg env [] r.clauses = .err e →
+      StageOf rec seg env f chain (Detail.forError e.kind) false
+  | fallthrough :
+      f.on = true → (∀ q ∈ f.prerequisites, Met rec env (chain ++ [f.key]) q) →
+      anyTargetMatch env.ctx f = none →
+      (∀ q ∈ f.rules, Spec.clausesMatch seg env [] q.clauses = .ok false) →
+      StageOf rec seg env f chain (Spec.getValueForVR env f f.fallthrough .fallthrough) true
+
+/-- `checkPrerequisites` passing means every listed prerequisite is met (vacuous for an empty list,
+which Go short-cuts). -/
+theorem checkPrereqs_ok_inv (h : Spec.checkPrereqs rec env f chain = .ok) :
+    ∀ q ∈ f.prerequisites, Met rec env (chain ++ [f.key]) q := by
+  unfold Spec.checkPrereqs at h
+  split at h
+  · next he =>
+    intro q hq
+    rw [List.isEmpty_iff.1 he] at hq
+    cases hq
+  · exact prereq_ok_inv _ h
+
+/-- The empty-list shortcut of `checkPrerequisites` is not a separate case: it equals running the
+loop over the (empty) list. -/
+theorem checkPrereqs_eq_loop :
+    Spec.checkPrereqs rec env f chain = Spec.prereqLoop rec env (chain ++ [f.key]) f.prerequisites := by
+  unfold Spec.checkPrereqs
+  split
+  · next he => rw [List.isEmpty_iff.1 he]; rfl
+  · rfl
+
+/-- The specification's `evalBody` returns `(d, ok)` exactly when some row of the decision table
+`StageOf` yields `(d, ok)`: the table is sound, complete and (hence) functional.  This is the whole
+decision order of one flag as a single statement. -/
+theorem evalBody_iff_stage (d : Detail) (ok : Bool) :
+    Spec.evalBody rec seg env f chain = some (d, ok) ↔ StageOf rec seg env f chain d ok := by
+  constructor
+  · intro h
+    unfold Spec.evalBody at h
+    split at h
+    · next hon =>
+      simp only [Option.some.injEq, Prod.mk.injEq] at h
+      obtain ⟨rfl, rfl⟩ := h
+      exact .off (by simpa using hon)
+    · next hon =>
+      have hon' : f.on = true := by simpa using hon
+      split at h
+      · cases h
+      · next hp =>
+        simp only [Option.some.injEq, Prod.mk.injEq] at h
+        obtain ⟨rfl, rfl⟩ := h
+        rw [checkPrereqs_eq_loop] at hp
+        obtain ⟨pre, p, post, hps, hpre, hab⟩ := prereq_malformed_inv _ hp
+        exact .prereqAbort pre p post hon' hps hpre hab
+      · next k hp =>
+        simp only [Option.some.injEq, Prod.mk.injEq] at h
+        obtain ⟨rfl, rfl⟩ := h
+        rw [checkPrereqs_eq_loop] at hp
+        obtain ⟨pre, p, post, hps, rfl, hpre, hun⟩ := prereq_failed_inv _ _ hp
+        exact .prereqFailed pre p post hon' hps hpre hun
+      · next hp =>
+        have hmet := checkPrereqs_ok_inv hp
+        split at h
+        · next v ht =>
+          simp only [Option.some.injEq, Prod.mk.injEq] at h
+          obtain ⟨rfl, rfl⟩ := h
+          exact .target v hon' hmet ht
+        · next ht =>
+          rcases rulesLoop_inv _ _ _ _ h with ⟨pre, r, post, hr, hpre, hm, rfl, rfl⟩ |
+              ⟨pre, r, post, e, hr, hpre, hm, rfl, rfl⟩ | ⟨hall, rfl, rfl⟩
+          · rw [Nat.zero_add]
+            exact .rule pre r post hon' hmet ht hr hpre hm
+          · exact .ruleError pre r post e hon' hmet ht hr hpre hm
+          · exact .fallthrough hon' hmet ht hall
+  · intro h
+    cases h with
+    | off hon => exact off hon
+    | prereqFailed pre p post hon hps hpre hun => exact prereq_failed_first hon pre p post hps hpre hun
+    | prereqAbort pre p post hon hps hpre hab =>
+      have : Spec.checkPrereqs rec env f chain = .malformed := by
+        rw [checkPrereqs_eq_loop]; exact prereq_first_aborts _ pre p post hps hpre hab
+      simp [Spec.evalBody, hon, this]
+    | target v hon hmet ht => exact target_over_rules hon (checkPrereqs_all_met hmet) ht
+    | rule pre r post hon hmet ht hr hpre hm =>
+      exact first_rule_evalBody pre r post hon (checkPrereqs_all_met hmet) ht hr hpre hm
+    | ruleError pre r post e hon hmet ht hr hpre hm =>
+      simp [Spec.evalBody, hon, checkPrereqs_all_met hmet, ht,
+        rule_error (f := f) f.rules pre r post 0 e hr hpre hm]
+    | fallthrough hon hmet ht hall => exact fallthrough_evalBody hon (checkPrereqs_all_met hmet) ht hall
+
+
+/-! ### A4. The entry point `evaluate` -/
+
+/-- The nested flag evaluator that `evaluate` hands to the prerequisite loop of the top flag. -/
+abbrev topRec (env : Env) : Spec.FlagRec :=
+  Spec.evalFlag (segFuel env.store) (distinctCount (env.store.flags.map (·.2.key)) + 1) env
+
+/-- The segment evaluator that `evaluate` uses for the rules of the top flag. -/
+abbrev topSeg (env : Env) : Spec.SegRec := Spec.segContains (segFuel env.store) env
+
+/-- `o` is the detail `d` in every field except the big-segments status annotation. -/
+structure DetailIs (o d : Detail) : Prop where
+  value : o.value = d.value
+  index : o.index = d.index
+  kind : o.reason.kind = d.reason.kind
+  ruleIndex : o.reason.ruleIndex = d.reason.ruleIndex
+  ruleId : o.reason.ruleId = d.reason.ruleId
+  prereqKey : o.reason.prereqKey = d.reason.prereqKey
+  errorKind : o.reason.errorKind = d.reason.errorKind
+  inExperiment : o.reason.inExperiment = d.reason.inExperiment
+
+/-- Every detail is itself. -/
+theorem DetailIs.refl (d : Detail) : DetailIs d d := ⟨rfl, rfl, rfl, rfl, rfl, rfl, rfl, rfl⟩
+
+/-- `DetailIs o d` pins `o` down completely except for `reason.bigSegmentsStatus`. -/
+theorem DetailIs.eq {o d : Detail} (h : DetailIs o d) :
+    o = { d with reason := { d.reason with bigSegmentsStatus := o.reason.bigSegmentsStatus } } := by
+  obtain ⟨h1, h2, h3, h4, h5, h6, h7, h8⟩ := h
+  obtain ⟨xv, xi, xr⟩ := o
+  obtain ⟨rk, ri, rid, rp, re, rx, rb⟩ := xr
+  simp only at h1 h2 h3 h4 h5 h6 h7 h8
+  subst h1 h2 h3 h4 h5 h6 h7 h8
+  rfl
+
+/-- The bridge `evaluate_detail_spec` in `DetailIs` form: what the Spec computes for the top flag is
+what `Evaluate` returns, field by field (big-segments status aside). -/
+theorem detailIs_of_spec (env : Env) (f : Flag) (hc : env.ctx ≠ .invalid) (d : Detail) (ok : Bool)
+    (hs : Spec.evalFlag (segFuel env.store) (flagFuel env.store) env f [] = some (d, ok)) :
+    DetailIs (evaluate env f).result.detail d := by
+  obtain ⟨-, h1, h2, h3, h4, h5, h6, h7, h8⟩ := evaluate_detail_spec env f hc d ok hs
+  exact ⟨h1, h2, h3, h4, h5, h6, h7, h8⟩
+
+/-- For a valid context the Spec run behind `evaluate` always completes (it never runs out of fuel)
+— from totality of `evaluate` (C01/C10). -/
+theorem spec_top_some (env : Env) (f : Flag) (hc : env.ctx ≠ .invalid) :
+    ∃ d ok, Spec.evalFlag (segFuel env.store) (flagFuel env.store) env f [] = some (d, ok) := by
+  cases h : Spec.evalFlag (segFuel env.store) (flagFuel env.store) env f [] with
+  | some r => exact ⟨r.1, r.2, rfl⟩
+  | none =>
+    have := evaluate_oof_spec env f hc h
+    rw [evaluate_total] at this
+    cases this
+
+/-- The Spec run behind `evaluate` is a stage of the decision table, and conversely. -/
+theorem spec_top_iff_stage (env : Env) (f : Flag) (d : Detail) (ok : Bool) :
+    Spec.evalFlag (segFuel env.store) (flagFuel env.store) env f [] = some (d, ok) ↔
+      StageOf (topRec env) (topSeg env) env f [] d ok := by
+  rw [evalFlag_top]; exact evalBody_iff_stage d ok
+
+/-- Soundness of the table at the entry point: if a row of the decision table applies to the flag
+passed to `Evaluate` (nested evaluators being the ones `Evaluate` itself uses), `Evaluate` returns
+that row's detail. -/
+theorem evaluate_of_stage {env : Env} {f : Flag} {d : Detail} {ok : Bool} (hc : env.ctx ≠ .invalid)
+    (h : StageOf (topRec env) (topSeg env) env f [] d ok) :
+    DetailIs (evaluate env f).result.detail d :=
+  detailIs_of_spec env f hc d ok ((spec_top_iff_stage env f d ok).2 h)
+
+/-- What `Evaluator.Evaluate` decides: USER_NOT_SPECIFIED for an invalid context, otherwise a row of
+the decision table for the top flag, with the prerequisites evaluated by `topRec` (chain = the
+flag's own key) and the rule clauses by `topSeg`. -/
+inductive Decision (env : Env) (f : Flag) : Detail → Prop
+  | invalid : env.ctx = .invalid → Decision env f (Detail.forError .userNotSpecified)
+  | staged (d : Detail) (ok : Bool) : env.ctx ≠ .invalid →
+      StageOf (topRec env) (topSeg env) env f [] d ok → Decision env f d
+
+/-- THE decision order, as one statement about `Evaluate`, for every flag, store, provider and
+context: there is exactly one detail `d` the decision table allows (`Decision`: invalid context,
+else off → first failing prerequisite, naming it → first aborting prerequisite → individual target →
+first matching rule with its index and id → first erroring rule → fallthrough), and the result of
+`Evaluate` equals that `d` in value, index, reason kind, rule index, rule id, prerequisite key,
+error kind and `inExperiment` (`DetailIs`).  No later stage can override an earlier one because the
+rows are mutually exclusive (uniqueness). -/
+theorem evaluate_decision_order (env : Env) (f : Flag) :
+    ∃ d, Decision env f d ∧ DetailIs (evaluate env f).result.detail d ∧
+      ∀ d', Decision env f d' → d' = d := by
+  by_cases hc : env.ctx = .invalid
+  · refine ⟨_, .invalid hc, ?_, ?_⟩
+    · rw [(evaluate_invalid f hc).2]; exact DetailIs.refl _
+    · intro d' h'
+      cases h' with
+      | invalid _ => rfl
+      | staged _ _ hc' _ => exact absurd hc hc'
+  · obtain ⟨d, ok, hs⟩ := spec_top_some env f hc
+    refine ⟨d, .staged d ok hc ((spec_top_iff_stage env f d ok).1 hs), detailIs_of_spec env f hc d ok hs, ?_⟩
+    intro d' h'
+    cases h' with
+    | invalid hc' => exact absurd hc' hc
+    | staged _ ok' _ hst =>
+      have := (spec_top_iff_stage env f d' ok').2 hst
+      rw [hs] at this
+      simp only [Option.some.injEq, Prod.mk.injEq] at this
+      exact this.1.symm
+
+
+/-! ### A4a. The reason carried by each stage -/
+
+/-- `reasonToExperimentReason` keeps the kind. -/
+theorem toExperiment_kind (r : Reason) : r.toExperiment.kind = r.kind := by
+  unfold Reason.toExperiment; split <;> rfl
+/-- `reasonToExperimentReason` keeps the rule index. -/
+theorem toExperiment_ruleIndex (r : Reason) : r.toExperiment.ruleIndex = r.ruleIndex := by
+  unfold Reason.toExperiment; split <;> rfl
+/-- `reasonToExperimentReason` keeps the rule id. -/
+theorem toExperiment_ruleId (r : Reason) : r.toExperiment.ruleId = r.ruleId := by
+  unfold Reason.toExperiment; split <;> rfl
+
+/-- `getVariation`: MALFORMED_FLAG for an index out of range, else exactly that variation with the
+given reason. -/
+theorem getVariation_cases (f : Flag) (i : Int) (r : Reason) :
+    ((i < 0 ∨ (f.variations.length : Int) ≤ i) ∧
+        Spec.getVariation f i r = Detail.forError .malformedFlag) ∨
+    (0 ≤ i ∧ i < f.variations.length ∧
+        Spec.getVariation f i r =
+          { value := f.variations.getD i.toNat .null, index := some i, reason := r }) := by
+  by_cases h : i < 0 ∨ (f.variations.length : Int) ≤ i
+  · exact Or.inl ⟨h, getVariation_bad r h⟩
+  · have h0 : 0 ≤ i := by omega
+    have h1 : i < f.variations.length := by omega
+    exact Or.inr ⟨h0, h1, getVariation_ok r h0 h1⟩
+
+/-- `getOffValue` yields MALFORMED_FLAG (off variation out of range) or a detail carrying exactly
+the given reason. -/
+theorem getOffValue_cases (f : Flag) (r : Reason) :
+    Spec.getOffValue f r = Detail.forError .malformedFlag ∨ (Spec.getOffValue f r).reason = r := by
+  unfold Spec.getOffValue
+  split
+  · exact Or.inr rfl
+  · next i _ =>
+    rcases getVariation_cases f i r with ⟨_, h⟩ | ⟨_, _, h⟩
+    · exact Or.inl h
+    · exact Or.inr (by rw [h])
+
+/-- `getValueForVariationOrRollout` yields an error detail (bad index, empty rollout, bad bucket-by
+reference) or a detail whose reason is the given one, possibly marked `inExperiment`. -/
+theorem getValueForVR_cases (env : Env) (f : Flag) (vr : VariationOrRollout) (r : Reason) :
+    (∃ k, Spec.getValueForVR env f vr r = Detail.forError k) ∨
+    (Spec.getValueForVR env f vr r).reason = r ∨
+    (Spec.getValueForVR env f vr r).reason = r.toExperiment := by
+  unfold Spec.getValueForVR
+  split
+  · next e _ => exact Or.inl ⟨e.kind, rfl⟩
+  · next i inExp _ =>
+    rcases getVariation_cases f i (if inExp then r.toExperiment else r) with ⟨_, h⟩ | ⟨_, _, h⟩
+    · exact Or.inl ⟨_, h⟩
+    · rw [h]
+      cases inExp
+      · exact Or.inr (Or.inl rfl)
+      · exact Or.inr (Or.inr rfl)
+
+/-- What the reason kind of a decided detail says about the flag — the table read backwards: a non-
+error kind identifies its row, together with the key of the failing prerequisite (first unmet, all
+earlier met), the matched target variation, or the index and id of the FIRST matching rule. -/
+theorem StageOf.classify {d : Detail} {ok : Bool} (h : StageOf rec seg env f chain d ok) :
+    d.reason.kind = .error ∨
+    (d.reason.kind = .off ∧ f.on = false) ∨
+    (d.reason.kind = .prereqFailed ∧ f.on = true ∧ ∃ pre p post,
+        f.prerequisites = pre ++ p :: post ∧ (∀ q ∈ pre, Met rec env (chain ++ [f.key]) q) ∧
+        Unmet rec env (chain ++ [f.key]) p ∧ d.reason.prereqKey = p.key) ∨
+    (d.reason.kind = .targetMatch ∧ f.on = true ∧
+        (∀ q ∈ f.prerequisites, Met rec env (chain ++ [f.key]) q) ∧
+        ∃ v, anyTargetMatch env.ctx f = some v ∧ d.index = some v) ∨
+    (d.reason.kind = .ruleMatch ∧ f.on = true ∧
+        (∀ q ∈ f.prerequisites, Met rec env (chain ++ [f.key]) q) ∧
+        anyTargetMatch env.ctx f = none ∧ ∃ pre r post, f.rules = pre ++ r :: post ∧
+        (∀ q ∈ pre, Spec.clausesMatch seg env [] q.clauses = .ok false) ∧
+        Spec.clausesMatch seg env [] r.clauses = .ok true ∧
+        d.reason.ruleIndex = pre.length ∧ d.reason.ruleId = r.id) ∨
+    (d.reason.kind = .fallthrough ∧ f.on = true ∧
+        (∀ q ∈ f.prerequisites, Met rec env (chain ++ [f.key]) q) ∧
+        anyTargetMatch env.ctx f = none ∧
+        ∀ q ∈ f.rules, Spec.clausesMatch seg env [] q.clauses = .ok false) := by
+  cases h with
+  | off hon =>
+    rcases getOffValue_cases f .off with h | h
+    · exact Or.inl (by rw [h]; rfl)
+    · exact Or.inr (Or.inl ⟨by rw [h]; rfl, hon⟩)
+  | prereqFailed pre p post hon hps hpre hun =>
+    rcases getOffValue_cases f (.prereqFailed p.key) with h | h
+    · exact Or.inl (by rw [h]; rfl)
+    · exact Or.inr (Or.inr (Or.inl ⟨by rw [h]; rfl, hon, pre, p, post, hps, hpre, hun, by rw [h]; rfl⟩))
+  | prereqAbort => exact Or.inl rfl
+  | target v hon hmet ht =>
+    rcases getVariation_cases f v .targetMatch with ⟨_, h⟩ | ⟨_, _, h⟩
+    · exact Or.inl (by rw [h]; rfl)
+    · exact Or.inr (Or.inr (Or.inr (Or.inl ⟨by rw [h]; rfl, hon, hmet, v, ht, by rw [h]⟩)))
+  | rule pre r post hon hmet ht hr hpre hm =>
+    rcases getValueForVR_cases env f r.vr (.ruleMatch pre.length r.id) with ⟨k, h⟩ | h | h
+    · exact Or.inl (by rw [h]; rfl)
+    · exact Or.inr (Or.inr (Or.inr (Or.inr (Or.inl
+        ⟨by rw [h]; rfl, hon, hmet, ht, pre, r, post, hr, hpre, hm, by rw [h]; rfl, by rw [h]; rfl⟩))))
+    · exact Or.inr (Or.inr (Or.inr (Or.inr (Or.inl
+        ⟨by rw [h, toExperiment_kind]; rfl, hon, hmet, ht, pre, r, post, hr, hpre, hm,
+          by rw [h, toExperiment_ruleIndex]; rfl, by rw [h, toExperiment_ruleId]; rfl⟩))))
+  | ruleError => exact Or.inl rfl
+  | fallthrough hon hmet ht hall =>
+    rcases getValueForVR_cases env f f.fallthrough .fallthrough with ⟨k, h⟩ | h | h
+    · exact Or.inl (by rw [h]; rfl)
+    · exact Or.inr (Or.inr (Or.inr (Or.inr (Or.inr ⟨by rw [h]; rfl, hon, hmet, ht, hall⟩))))
+    · exact Or.inr (Or.inr (Or.inr (Or.inr (Or.inr
+        ⟨by rw [h, toExperiment_kind]; rfl, hon, hmet, ht, hall⟩))))
+
+
+/-- Converse for the rule loop (audit finding 6): a completed rule loop that answers RULE_MATCH did
+so for the first rule whose clauses all match, every earlier rule having evaluated to "no match",
+and the reason carries that rule's index (offset by the loop's start index) and id. -/
+theorem rule_match_inv (rules : List FlagRule) (i : Nat) (d : Detail)
+    (h : Spec.rulesLoop seg env f rules i = some (d, true)) (hk : d.reason.kind = .ruleMatch) :
+    ∃ pre r post, rules = pre ++ r :: post ∧
+      (∀ q ∈ pre, Spec.clausesMatch seg env [] q.clauses = .ok false) ∧
+      Spec.clausesMatch seg env [] r.clauses = .ok true ∧
+      d = Spec.getValueForVR env f r.vr (.ruleMatch (i + pre.length) r.id) ∧
+      d.reason.ruleIndex = ((i + pre.length : Nat) : Int) ∧ d.reason.ruleId = r.id := by
+  rcases rulesLoop_inv rules i d true h with ⟨pre, r, post, hr, hpre, hm, hd, -⟩ |
+      ⟨_, _, _, _, _, _, _, _, hok⟩ | ⟨_, hd, -⟩
+  · refine ⟨pre, r, post, hr, hpre, hm, hd, ?_⟩
+    rcases getValueForVR_cases env f r.vr (.ruleMatch (i + pre.length) r.id) with ⟨k, h'⟩ | h' | h'
+    · rw [hd, h'] at hk; cases hk
+    · rw [hd, h']; exact ⟨rfl, rfl⟩
+    · rw [hd, h', toExperiment_ruleIndex, toExperiment_ruleId]; exact ⟨rfl, rfl⟩
+  · cases hok
+  · exfalso
+    rcases getValueForVR_cases env f f.fallthrough .fallthrough with ⟨k, h'⟩ | h' | h'
+    · rw [hd, h'] at hk; cases hk
+    · rw [hd, h'] at hk; cases hk
+    · rw [hd, h', toExperiment_kind] at hk; cases hk
+
+/-! ### A4b. Vocabulary for the flag passed to `evaluate`, and the converse -/
+
+/-- Prerequisite `p` of the flag `f` passed to `Evaluate` is met: the store has it, it is not `f`
+itself (cycle test against the chain `[f.key]`), its nested evaluation completes, it is on and
+serves exactly `p.variation`. -/
+abbrev PrereqMet (env : Env) (f : Flag) (p : Prereq) : Prop := Met (topRec env) env [f.key] p
+/-- Prerequisite `p` of the top flag is unmet: missing from the store, or its nested evaluation
+completes and it is off or serves something else. -/
+abbrev PrereqUnmet (env : Env) (f : Flag) (p : Prereq) : Prop := Unmet (topRec env) env [f.key] p
+/-- Prerequisite `p` of the top flag aborts the evaluation: the store returns a flag with the top
+flag's own key (cycle), or the nested evaluation itself aborted. -/
+abbrev PrereqAborts (env : Env) (f : Flag) (p : Prereq) : Prop := Aborts (topRec env) env [f.key] p
+/-- All clauses of rule `r` match, as `Evaluate` evaluates them for the top flag (segments through
+`topSeg`). -/
+abbrev RuleMatches (env : Env) (r : FlagRule) : Prop :=
+  Spec.clausesMatch (topSeg env) env [] r.clauses = .ok true
+/-- Some clause of rule `r` does not match, and none before it raised an error. -/
+abbrev RuleFails (env : Env) (r : FlagRule) : Prop :=
+  Spec.clausesMatch (topSeg env) env [] r.clauses = .ok false
+/-- Evaluating the clauses of rule `r` raises the evaluation error `e` (bad attribute reference,
+malformed segment, …). -/
+abbrev RuleErrors (env : Env) (r : FlagRule) (e : EvalErr) : Prop :=
+  Spec.clausesMatch (topSeg env) env [] r.clauses = .err e
+
+/-- An invalid context gives an ERROR result. -/
+theorem evaluate_kind_error_of_invalid {env : Env} (f : Flag) (hc : env.ctx = .invalid) :
+    (evaluate env f).result.detail.reason.kind = .error := by
+  rw [(evaluate_invalid f hc).2]; rfl
+
+/-- The decision order read backwards, at the entry point and for every input: a result of
+`Evaluate` with reason OFF comes from a flag that is off; PREREQUISITE_FAILED names the first unmet
+prerequisite, all listed before it being met; TARGET_MATCH means the flag is on, all prerequisites
+are met and the targeting stage answered the served index; RULE_MATCH means moreover no target
+matched and the reason's index and id are those of the FIRST matching rule; FALLTHROUGH means no
+target and no rule matched.  So a Go change that lets a later stage win over an earlier one
+falsifies this theorem. -/
+theorem evaluate_reason_inv (env : Env) (f : Flag) :
+    ((evaluate env f).result.detail.reason.kind = .off → f.on = false) ∧
+    ((evaluate env f).result.detail.reason.kind = .prereqFailed → f.on = true ∧
+      ∃ pre p post, f.prerequisites = pre ++ p :: post ∧ (∀ q ∈ pre, PrereqMet env f q) ∧
+        PrereqUnmet env f p ∧ (evaluate env f).result.detail.reason.prereqKey = p.key) ∧
+    ((evaluate env f).result.detail.reason.kind = .targetMatch → f.on = true ∧
+      (∀ q ∈ f.prerequisites, PrereqMet env f q) ∧
+      ∃ v, anyTargetMatch env.ctx f = some v ∧ (evaluate env f).result.detail.index = some v) ∧
+    ((evaluate env f).result.detail.reason.kind = .ruleMatch → f.on = true ∧
+      (∀ q ∈ f.prerequisites, PrereqMet env f q) ∧ anyTargetMatch env.ctx f = none ∧
+      ∃ pre r post, f.rules = pre ++ r :: post ∧ (∀ q ∈ pre, RuleFails env q) ∧ RuleMatches env r ∧
+        (evaluate env f).result.detail.reason.ruleIndex = pre.length ∧
+        (evaluate env f).result.detail.reason.ruleId = r.id) ∧
+    ((evaluate env f).result.detail.reason.kind = .fallthrough → f.on = true ∧
+      (∀ q ∈ f.prerequisites, PrereqMet env f q) ∧ anyTargetMatch env.ctx f = none ∧
+      ∀ q ∈ f.rules, RuleFails env q) := by
+  by_cases hc : env.ctx = .invalid
+  · have hk := evaluate_kind_error_of_invalid f hc
+    rw [hk]
+    exact ⟨nofun, nofun, nofun, nofun, nofun⟩
+  · obtain ⟨d, ok, hs⟩ := spec_top_some env f hc
+    have hd := detailIs_of_spec env f hc d ok hs
+    have hcl := ((spec_top_iff_stage env f d ok).1 hs).classify
+    rw [hd.kind, hd.prereqKey, hd.index, hd.ruleIndex, hd.ruleId]
+    refine ⟨?_, ?_, ?_, ?_, ?_⟩ <;> intro hk <;> rw [hk] at hcl
+    · rcases hcl with h | ⟨_, h⟩ | ⟨h, _⟩ | ⟨h, _⟩ | ⟨h, _⟩ | ⟨h, _⟩ <;> first | exact h | cases h
+    · rcases hcl with h | ⟨h, _⟩ | ⟨_, h⟩ | ⟨h, _⟩ | ⟨h, _⟩ | ⟨h, _⟩ <;> first | exact h | cases h
+    · rcases hcl with h | ⟨h, _⟩ | ⟨h, _⟩ | ⟨_, h⟩ | ⟨h, _⟩ | ⟨h, _⟩ <;> first | exact h | cases h
+    · rcases hcl with h | ⟨h, _⟩ | ⟨h, _⟩ | ⟨h, _⟩ | ⟨_, h⟩ | ⟨h, _⟩ <;> first | exact h | cases h
+    · rcases hcl with h | ⟨h, _⟩ | ⟨h, _⟩ | ⟨h, _⟩ | ⟨h, _⟩ | ⟨_, h⟩ <;> first | exact h | cases h
+
+
+/-! ### A4c. One theorem per stage, at the entry point, with prerequisites -/
+
+/-- Targeting off, at the entry point, all fields: `Evaluate` returns the off variation (or no
+variation) with reason OFF, rule index −1, empty rule id and prerequisite key, no error kind, not in
+an experiment — or MALFORMED_FLAG if the off variation is out of range. -/
+theorem evaluate_off_full (env : Env) (f : Flag) (hc : env.ctx ≠ .invalid) (h : f.on = false) :
+    DetailIs (evaluate env f).result.detail (Spec.getOffValue f .off) :=
+  evaluate_of_stage hc (.off h)
+
+/-- PREREQUISITE_FAILED at the entry point: the flag is on, the prerequisites listed before `p` are
+met and `p` is unmet ⇒ `Evaluate` returns the off variation with reason PREREQUISITE_FAILED whose
+`prerequisiteKey` is `p.key` — the FIRST failing one; later prerequisites, targets and rules are
+irrelevant. -/
+theorem evaluate_prereq_failed (env : Env) (f : Flag) (hc : env.ctx ≠ .invalid) (hon : f.on = true)
+    (pre : List Prereq) (p : Prereq) (post : List Prereq)
+    (hps : f.prerequisites = pre ++ p :: post) (hpre : ∀ q ∈ pre, PrereqMet env f q)
+    (hp : PrereqUnmet env f p) :
+    DetailIs (evaluate env f).result.detail (Spec.getOffValue f (.prereqFailed p.key)) :=
+  evaluate_of_stage hc (.prereqFailed pre p post hon hps hpre hp)
+
+/-- A prerequisite cycle or an aborted nested evaluation, reached after only met prerequisites,
+makes `Evaluate` return MALFORMED_FLAG (no value, no index). -/
+theorem evaluate_prereq_abort (env : Env) (f : Flag) (hc : env.ctx ≠ .invalid) (hon : f.on = true)
+    (pre : List Prereq) (p : Prereq) (post : List Prereq)
+    (hps : f.prerequisites = pre ++ p :: post) (hpre : ∀ q ∈ pre, PrereqMet env f q)
+    (hp : PrereqAborts env f p) :
+    DetailIs (evaluate env f).result.detail (Detail.forError .malformedFlag) :=
+  evaluate_of_stage hc (.prereqAbort pre p post hon hps hpre hp)
+
+/-- TARGET_MATCH at the entry point WITH prerequisites: flag on, every prerequisite met, the
+targeting stage answers `v` ⇒ `Evaluate` returns variation `v` with reason TARGET_MATCH
+(MALFORMED_FLAG if `v` is out of range), whatever the rules and the fallthrough are. -/
+theorem evaluate_target (env : Env) (f : Flag) (v : Int) (hc : env.ctx ≠ .invalid)
+    (hon : f.on = true) (hp : ∀ q ∈ f.prerequisites, PrereqMet env f q)
+    (ht : anyTargetMatch env.ctx f = some v) :
+    DetailIs (evaluate env f).result.detail (Spec.getVariation f v .targetMatch) :=
+  evaluate_of_stage hc (.target v hon hp ht)
+
+/-- RULE_MATCH at the entry point: flag on, prerequisites met, no target matches, rules before `r`
+do not match, `r` matches ⇒ `Evaluate` returns what `r`'s variation-or-rollout selects, with reason
+RULE_MATCH, `ruleIndex = pre.length`, `ruleId = r.id` (and the experiment bit of the rollout); rules
+after `r` are irrelevant. -/
+theorem evaluate_rule_match (env : Env) (f : Flag) (hc : env.ctx ≠ .invalid) (hon : f.on = true)
+    (hp : ∀ q ∈ f.prerequisites, PrereqMet env f q) (ht : anyTargetMatch env.ctx f = none)
+    (pre : List FlagRule) (r : FlagRule) (post : List FlagRule) (hr : f.rules = pre ++ r :: post)
+    (hpre : ∀ q ∈ pre, RuleFails env q) (hm : RuleMatches env r) :
+    DetailIs (evaluate env f).result.detail
+      (Spec.getValueForVR env f r.vr (.ruleMatch pre.length r.id)) :=
+  evaluate_of_stage hc (.rule pre r post hon hp ht hr hpre hm)
+
+/-- `errorKindForError` has two possible answers. -/
+theorem errKind_cases (e : EvalErr) : e.kind = .malformedFlag ∨ e.kind = .exception := by
+  cases e <;> simp [EvalErr.kind]
+
+/-- An evaluation error in the clauses of the first rule that does not plainly fail makes `Evaluate`
+return MALFORMED_FLAG — never EXCEPTION — even if a later rule would match. -/
+theorem evaluate_rule_error (env : Env) (f : Flag) (hc : env.ctx ≠ .invalid) (hon : f.on = true)
+    (hp : ∀ q ∈ f.prerequisites, PrereqMet env f q) (ht : anyTargetMatch env.ctx f = none)
+    (pre : List FlagRule) (r : FlagRule) (post : List FlagRule) (e : EvalErr)
+    (hr : f.rules = pre ++ r :: post)
+    (hpre : ∀ q ∈ pre, RuleFails env q) (hm : RuleErrors env r e) :
+    DetailIs (evaluate env f).result.detail (Detail.forError .malformedFlag) := by
+  have h := evaluate_of_stage hc (.ruleError pre r post e hon hp ht hr hpre hm)
+  rcases errKind_cases e with hk | hk
+  · rwa [hk] at h
+  · exfalso
+    have := h.errorKind
+    rw [hk] at this
+    exact evaluate_never_exception env f this
+
+/-- FALLTHROUGH at the entry point: flag on, prerequisites met, no target and no rule matches ⇒
+`Evaluate` returns what the fallthrough variation-or-rollout selects with reason FALLTHROUGH. -/
+theorem evaluate_fallthrough (env : Env) (f : Flag) (hc : env.ctx ≠ .invalid) (hon : f.on = true)
+    (hp : ∀ q ∈ f.prerequisites, PrereqMet env f q) (ht : anyTargetMatch env.ctx f = none)
+    (hall : ∀ q ∈ f.rules, RuleFails env q) :
+    DetailIs (evaluate env f).result.detail
+      (Spec.getValueForVR env f f.fallthrough .fallthrough) :=
+  evaluate_of_stage hc (.fallthrough hon hp ht hall)
+
+/-! ### A5. Met and unmet prerequisites through `evaluate` of the prerequisite itself -/
+
+/-- "Met" in terms of the public API: a met prerequisite is a stored flag other than the dependent
+one, is on, and `Evaluate` called on it directly (same context, same store) serves exactly the
+required variation.  (One direction only: behind a cycle through the dependent flag the nested
+evaluation aborts although the direct one may not.) -/
+theorem PrereqMet.standalone {env : Env} {f : Flag} {p : Prereq} (hc : env.ctx ≠ .invalid)
+    (h : PrereqMet env f p) :
+    ∃ pf, env.store.findFlag p.key = some pf ∧ pf.key ≠ f.key ∧ pf.on = true ∧
+      (evaluate env pf).result.detail.index = some p.variation := by
+  obtain ⟨pf, d, h1, h2, h3, h4, h5⟩ := h
+  have hs := Spec.evalFlag_weaken_le (segFuel env.store) env
+    (show distinctCount (env.store.flags.map (·.2.key)) + 1 ≤ flagFuel env.store by
+      unfold flagFuel; omega) (Spec.SubChain.nil [f.key]) h3
+  have hd := detailIs_of_spec env pf hc d true hs
+  refine ⟨pf, h1, ?_, h4, by rw [hd.index, h5]⟩
+  intro hk
+  rw [hk] at h2
+  simp at h2
+
+/-- "Unmet" in terms of the public API: the flag is missing, or it is off or `Evaluate` called on it
+directly does not serve the required variation. -/
+theorem PrereqUnmet.standalone {env : Env} {f : Flag} {p : Prereq} (hc : env.ctx ≠ .invalid)
+    (h : PrereqUnmet env f p) :
+    env.store.findFlag p.key = none ∨
+    ∃ pf, env.store.findFlag p.key = some pf ∧
+      ¬ (pf.on = true ∧ (evaluate env pf).result.detail.index = some p.variation) := by
+  rcases h with h | ⟨pf, d, h1, h2, h3, h4⟩
+  · exact Or.inl h
+  · have hs := Spec.evalFlag_weaken_le (segFuel env.store) env
+      (show distinctCount (env.store.flags.map (·.2.key)) + 1 ≤ flagFuel env.store by
+        unfold flagFuel; omega) (Spec.SubChain.nil [f.key]) h3
+    have hd := detailIs_of_spec env pf hc d true hs
+    exact Or.inr ⟨pf, h1, by rw [hd.index]; exact h4⟩
+
+/-- "Rule matches / fails / errors" in terms of the code-shaped model: whatever the per-call state
+(membership cache, status, logs, …) is when the rule loop of the top flag reaches rule `r`, as long as
+its cache only holds provider answers — which every state reached inside `evaluate` does — the
+model's `clausesMatch` returns exactly the outcome `RuleMatches`/`RuleFails`/`RuleErrors` talk about. -/
+theorem ruleOutcome_model (env : Env) (r : FlagRule) (st : St) (h : Consistent env st) :
+    (clausesMatch (segContains (segFuel env.store) env) env [] r.clauses st).1 =
+      Spec.clausesMatch (topSeg env) env [] r.clauses :=
+  (clausesMatch_refines (segContains_refines (segFuel env.store) env) [] r.clauses st h).1
+
+/-! ### A6. `Result.isExperiment` -/
+
+/-- `isExperiment` reads the reason only through kind, rule index and `inExperiment`. -/
+theorem isExperimentResult_congr (f : Flag) {r r' : Reason} (h1 : r.kind = r'.kind)
+    (h2 : r.ruleIndex = r'.ruleIndex) (h3 : r.inExperiment = r'.inExperiment) :
+    isExperimentResult f r = isExperimentResult f r' := by
+  unfold isExperimentResult
+  rw [h1, h2, h3]
+
+/-- `Result.IsExperiment` is `isExperiment(flag, reason)` of the returned reason (the part the
+bridge `evaluate_detail_spec` leaves out). -/
+theorem evaluate_isExperiment_eq (env : Env) (f : Flag) :
+    (evaluate env f).result.isExperiment =
+      isExperimentResult f (evaluate env f).result.detail.reason := by
+  unfold evaluate
+  split <;> rfl
+
+/-- `Result.IsExperiment` is determined by the row of the decision table: it is `isExperiment(flag,
+d.reason)` for the detail `d` the table yields. -/
+theorem evaluate_isExperiment_of {env : Env} {f : Flag} {d : Detail}
+    (h : DetailIs (evaluate env f).result.detail d) :
+    (evaluate env f).result.isExperiment = isExperimentResult f d.reason := by
+  rw [evaluate_isExperiment_eq]
+  exact isExperimentResult_congr f h.kind h.ruleIndex h.inExperiment
+
+
+/-- A reason that is in an experiment is a RULE_MATCH or a FALLTHROUGH. -/
+theorem StageOf.inExperiment_kinds {d : Detail} {ok : Bool} (h : StageOf rec seg env f chain d ok)
+    (hin : d.reason.inExperiment = true) :
+    d.reason.kind = .ruleMatch ∨ d.reason.kind = .fallthrough := by
+  have hoff : ∀ r : Reason, r.inExperiment = false →
+      (Spec.getOffValue f r).reason.inExperiment = false := by
+    intro r hr
+    rcases getOffValue_cases f r with h | h
+    · rw [h]; rfl
+    · rw [h]; exact hr
+  have hvr : ∀ (vr : VariationOrRollout) (r : Reason), r.inExperiment = false →
+      (r.kind = .ruleMatch ∨ r.kind = .fallthrough) →
+      (Spec.getValueForVR env f vr r).reason.inExperiment = true →
+      (Spec.getValueForVR env f vr r).reason.kind = .ruleMatch ∨
+        (Spec.getValueForVR env f vr r).reason.kind = .fallthrough := by
+    intro vr r hr hk hin
+    rcases getValueForVR_cases env f vr r with ⟨k, h⟩ | h | h
+    · rw [h] at hin; cases hin
+    · rw [h] at hin; rw [hr] at hin; cases hin
+    · rw [h, toExperiment_kind]; exact hk
+  cases h with
+  | off hon => rw [hoff _ rfl] at hin; cases hin
+  | prereqFailed pre p post hon hps hpre hun => rw [hoff _ rfl] at hin; cases hin
+  | prereqAbort => cases hin
+  | target v hon hmet ht =>
+    rcases getVariation_cases f v .targetMatch with ⟨_, h⟩ | ⟨_, _, h⟩ <;> rw [h] at hin <;> cases hin
+  | rule pre r post hon hmet ht hr hpre hm => exact hvr _ _ rfl (Or.inl rfl) hin
+  | ruleError => cases hin
+  | fallthrough hon hmet ht hall => exact hvr _ _ rfl (Or.inr rfl) hin
+
+/-- `Result.IsExperiment` is false for OFF, PREREQUISITE_FAILED, TARGET_MATCH and ERROR results. -/
+theorem evaluate_isExperiment_early (env : Env) (f : Flag)
+    (hk : (evaluate env f).result.detail.reason.kind ≠ .ruleMatch ∧
+      (evaluate env f).result.detail.reason.kind ≠ .fallthrough) :
+    (evaluate env f).result.isExperiment = false := by
+  by_cases hc : env.ctx = .invalid
+  · rw [evaluate_isExperiment_eq, (evaluate_invalid f hc).2]; rfl
+  · obtain ⟨d, ok, hs⟩ := spec_top_some env f hc
+    have hd := detailIs_of_spec env f hc d ok hs
+    have hst := (spec_top_iff_stage env f d ok).1 hs
+    rw [evaluate_isExperiment_of hd]
+    rw [hd.kind] at hk
+    have hin : d.reason.inExperiment = false := by
+      cases h : d.reason.inExperiment with
+      | false => rfl
+      | true => rcases hst.inExperiment_kinds h with h' | h' <;> simp [h'] at hk
+    unfold isExperimentResult
+    rw [hin]
+    revert hk
+    cases d.reason.kind <;> simp
+
+/-- `isExperiment` for a RULE_MATCH reason whose index points at rule `r`. -/
+theorem isExperimentResult_ruleMatch (f : Flag) (r' : Reason) (pre : List FlagRule) (r : FlagRule)
+    (post : List FlagRule) (hr : f.rules = pre ++ r :: post) (hk : r'.kind = .ruleMatch)
+    (hi : r'.ruleIndex = (pre.length : Int)) :
+    isExperimentResult f r' = (r'.inExperiment || r.trackEvents) := by
+  unfold isExperimentResult
+  rw [hk, hi, hr]
+  cases r'.inExperiment <;> simp
+
+/-- For a RULE_MATCH result `IsExperiment` is "in the experiment, or the matched rule tracks
+events" — the matched rule being the FIRST matching one. -/
+theorem evaluate_isExperiment_rule_match (env : Env) (f : Flag) (hc : env.ctx ≠ .invalid)
+    (hon : f.on = true)
+    (hp : ∀ q ∈ f.prerequisites, PrereqMet env f q) (ht : anyTargetMatch env.ctx f = none)
+    (pre : List FlagRule) (r : FlagRule) (post : List FlagRule) (hr : f.rules = pre ++ r :: post)
+    (hpre : ∀ q ∈ pre, RuleFails env q) (hm : RuleMatches env r)
+    (hk : (evaluate env f).result.detail.reason.kind = .ruleMatch) :
+    (evaluate env f).result.isExperiment =
+      ((evaluate env f).result.detail.reason.inExperiment || r.trackEvents) := by
+  have hd := evaluate_rule_match env f hc hon hp ht pre r post hr hpre hm
+  rw [evaluate_isExperiment_eq]
+  apply isExperimentResult_ruleMatch f _ pre r post hr hk
+  rw [hd.ruleIndex]
+  rw [hd.kind] at hk
+  rcases getValueForVR_cases env f r.vr (.ruleMatch pre.length r.id) with ⟨k, h⟩ | h | h
+  · rw [h] at hk; cases hk
+  · rw [h]; rfl
+  · rw [h, toExperiment_ruleIndex]; rfl
+
+/-- For a FALLTHROUGH result `IsExperiment` is "in the experiment, or `trackEventsFallthrough`". -/
+theorem evaluate_isExperiment_fallthrough (env : Env) (f : Flag)
+    (hk : (evaluate env f).result.detail.reason.kind = .fallthrough) :
+    (evaluate env f).result.isExperiment =
+      ((evaluate env f).result.detail.reason.inExperiment || f.trackEventsFallthrough) := by
+  rw [evaluate_isExperiment_eq]
+  unfold isExperimentResult
+  rw [hk]
+  cases (evaluate env f).result.detail.reason.inExperiment <;> simp
+
+/-! ### A7. Stages that do not reach segments leave status and side channels alone -/
+
+/-- State `b` differs from state `a` at most in the log: same big-segments status, membership cache,
+lookups, queries, membership checks and events. -/
+structure SameSeg (a b : St) : Prop where
+  status : b.status = a.status
+  flagLookups : b.flagLookups = a.flagLookups
+  segLookups : b.segLookups = a.segLookups
+  bsQueries : b.bsQueries = a.bsQueries
+  memChecks : b.memChecks = a.memChecks
+  events : b.events = a.events
+  cache : b.cache = a.cache
+
+/-- Logging an error touches only the log. -/
+theorem logErr_sameSeg (env : Env) (k : String) (e : EvalErr) (st : St) :
+    SameSeg st (logErr env k e st) := by
+  unfold logErr; split <;> exact ⟨rfl, rfl, rfl, rfl, rfl, rfl, rfl⟩
+
+/-- `getVariation` touches only the log (it logs a bad index). -/
+theorem getVariation_sameSeg (env : Env) (f : Flag) (i : Int) (r : Reason) (st : St) :
+    SameSeg st (getVariation env f i r st).2 := by
+  unfold getVariation; split
+  · exact logErr_sameSeg ..
+  · exact ⟨rfl, rfl, rfl, rfl, rfl, rfl, rfl⟩
+
+/-- `getOffValue` touches only the log. -/
+theorem getOffValue_sameSeg (env : Env) (f : Flag) (r : Reason) (st : St) :
+    SameSeg st (getOffValue env f r st).2 := by
+  unfold getOffValue; split
+  · exact ⟨rfl, rfl, rfl, rfl, rfl, rfl, rfl⟩
+  · exact getVariation_sameSeg ..
+
+/-- `getVariation` does not set a big-segments status in the reason. -/
+theorem getVariation_bss (env : Env) (f : Flag) (i : Int) (r : Reason) (st : St)
+    (hr : r.bigSegmentsStatus = none) :
+    (getVariation env f i r st).1.reason.bigSegmentsStatus = none := by
+  unfold getVariation; split
+  · rfl
+  · exact hr
+
+/-- `getOffValue` does not set a big-segments status in the reason. -/
+theorem getOffValue_bss (env : Env) (f : Flag) (r : Reason) (st : St)
+    (hr : r.bigSegmentsStatus = none) :
+    (getOffValue env f r st).1.reason.bigSegmentsStatus = none := by
+  unfold getOffValue; split
+  · exact hr
+  · exact getVariation_bss _ _ _ _ _ hr
+
+
+/-- The model run behind `evaluate`, unfolded once. -/
+theorem evalFlag_top_model (env : Env) (f : Flag) :
+    evalFlag (segFuel env.store) (flagFuel env.store) env f [] {} =
+      evalBody (evalFlag (segFuel env.store) (distinctCount (env.store.flags.map (·.2.key)) + 1) env)
+        (segContains (segFuel env.store) env) env f [] {} := rfl
+
+/-- `evaluate` read off a completed run of the top-level body. -/
+theorem evaluate_of_body (env : Env) (f : Flag) (hc : env.ctx ≠ .invalid) {d : Detail} {ok : Bool}
+    {st : St}
+    (he : evalBody (evalFlag (segFuel env.store) (distinctCount (env.store.flags.map (·.2.key)) + 1) env)
+        (segContains (segFuel env.store) env) env f [] {} = (.done d ok, st)) :
+    (evaluate env f).result.detail = withStatus d st.status ∧
+    (evaluate env f).flagLookups = st.flagLookups ∧ (evaluate env f).segLookups = st.segLookups ∧
+    (evaluate env f).bsQueries = st.bsQueries ∧ (evaluate env f).memChecks = st.memChecks ∧
+    (evaluate env f).events = st.events ∧ (evaluate env f).logs = st.logs := by
+  rw [← evalFlag_top_model] at he
+  unfold evaluate
+  split
+  · contradiction
+  · rw [he]
+    refine ⟨?_, rfl, rfl, rfl, rfl, rfl, rfl⟩
+    simp only
+    cases st.status <;> rfl
+
+/-- Targeting off reaches nothing: `Evaluate` on an off flag reports no big-segments status and
+performs no flag lookup, no segment lookup, no big-segment query or membership check, and records no
+prerequisite event. -/
+theorem evaluate_off_untouched (env : Env) (f : Flag) (hc : env.ctx ≠ .invalid) (h : f.on = false) :
+    (evaluate env f).result.detail.reason.bigSegmentsStatus = none ∧
+    (evaluate env f).flagLookups = [] ∧ (evaluate env f).segLookups = [] ∧
+    (evaluate env f).bsQueries = [] ∧ (evaluate env f).memChecks = [] ∧
+    (evaluate env f).events = [] := by
+  have hs := getOffValue_sameSeg env f .off {}
+  have hb := getOffValue_bss env f .off {} rfl
+  have he : evalBody (evalFlag (segFuel env.store) (distinctCount (env.store.flags.map (·.2.key)) + 1) env)
+        (segContains (segFuel env.store) env) env f [] {} =
+      (.done (getOffValue env f .off {}).1 true, (getOffValue env f .off {}).2) := by
+    simp only [evalBody, h]; rfl
+  obtain ⟨h1, h2, h3, h4, h5, h6, -⟩ := evaluate_of_body env f hc he
+  rw [h1, h2, h3, h4, h5, h6, hs.status, hs.flagLookups, hs.segLookups, hs.bsQueries, hs.memChecks,
+    hs.events]
+  exact ⟨hb, rfl, rfl, rfl, rfl, rfl⟩
+
+
+/-- Attaching the final status to a reason that has none yields exactly that status. -/
+theorem withStatus_bss (d : Detail) (s : Option Status) (h : d.reason.bigSegmentsStatus = none) :
+    (withStatus d s).reason.bigSegmentsStatus = s := by
+  cases s with
+  | none => exact h
+  | some s => rfl
+
+/-- The model-level nested evaluator of the top flag's prerequisites. -/
+abbrev topRecM (env : Env) : FlagRec :=
+  evalFlag (segFuel env.store) (distinctCount (env.store.flags.map (·.2.key)) + 1) env
+
+/-- The stages before the rules do not reach segments: when the prerequisite loop fails, aborts, or
+passes and a target matches, the big-segments status `Evaluate` reports, and all its lookups,
+queries, membership checks and events, are exactly what the prerequisite loop (i.e. the nested
+evaluations of the prerequisites) left — the off-value and target stages add nothing. -/
+theorem evaluate_early_stage_untouched (env : Env) (f : Flag) (hc : env.ctx ≠ .invalid)
+    (hon : f.on = true) {po : PrereqOut} {st1 : St}
+    (hp : checkPrereqs (topRecM env) env f [] {} = (po, st1))
+    (h : (∃ k, po = .failed k) ∨ po = .malformed ∨
+      (po = .ok ∧ (anyTargetMatch env.ctx f).isSome = true)) :
+    (evaluate env f).result.detail.reason.bigSegmentsStatus = st1.status ∧
+    (evaluate env f).flagLookups = st1.flagLookups ∧ (evaluate env f).segLookups = st1.segLookups ∧
+    (evaluate env f).bsQueries = st1.bsQueries ∧ (evaluate env f).memChecks = st1.memChecks ∧
+    (evaluate env f).events = st1.events := by
+  rcases h with ⟨k, rfl⟩ | rfl | ⟨rfl, ht⟩
+  · have hs := getOffValue_sameSeg env f (.prereqFailed k) st1
+    have hb := getOffValue_bss env f (.prereqFailed k) st1 rfl
+    have he : evalBody (topRecM env) (segContains (segFuel env.store) env) env f [] {} =
+        (.done (getOffValue env f (.prereqFailed k) st1).1 true,
+          (getOffValue env f (.prereqFailed k) st1).2) := by
+      simp only [evalBody, hon, hp]; rfl
+    obtain ⟨h1, h2, h3, h4, h5, h6, -⟩ := evaluate_of_body env f hc he
+    rw [h1, h2, h3, h4, h5, h6, withStatus_bss _ _ hb, hs.status, hs.flagLookups, hs.segLookups,
+      hs.bsQueries, hs.memChecks, hs.events]
+    exact ⟨rfl, rfl, rfl, rfl, rfl, rfl⟩
+  · have he : evalBody (topRecM env) (segContains (segFuel env.store) env) env f [] {} =
+        (.done (Detail.forError .malformedFlag) false, st1) := by
+      simp only [evalBody, hon, hp]; rfl
+    obtain ⟨h1, h2, h3, h4, h5, h6, -⟩ := evaluate_of_body env f hc he
+    rw [h1, h2, h3, h4, h5, h6, withStatus_bss _ _ rfl]
+    exact ⟨rfl, rfl, rfl, rfl, rfl, rfl⟩
+  · obtain ⟨v, hv⟩ := Option.isSome_iff_exists.1 ht
+    have hs := getVariation_sameSeg env f v .targetMatch st1
+    have hb := getVariation_bss env f v .targetMatch st1 rfl
+    have he : evalBody (topRecM env) (segContains (segFuel env.store) env) env f [] {} =
+        (.done (getVariation env f v .targetMatch st1).1 true,
+          (getVariation env f v .targetMatch st1).2) := by
+      simp only [evalBody, hon, hp, hv]; rfl
+    obtain ⟨h1, h2, h3, h4, h5, h6, -⟩ := evaluate_of_body env f hc he
+    rw [h1, h2, h3, h4, h5, h6, withStatus_bss _ _ hb, hs.status, hs.flagLookups, hs.segLookups,
+      hs.bsQueries, hs.memChecks, hs.events]
+    exact ⟨rfl, rfl, rfl, rfl, rfl, rfl⟩
+
+/-- No prerequisites and a matching individual target: `Evaluate` reports no big-segments status and
+consults neither the store nor the big-segment provider, and records no event — although the flag's
+rules may reference (big) segments. -/
+theorem evaluate_target_untouched (env : Env) (f : Flag) (hc : env.ctx ≠ .invalid)
+    (hon : f.on = true) (hp : f.prerequisites = []) {v : Int}
+    (ht : anyTargetMatch env.ctx f = some v) :
+    (evaluate env f).result.detail.reason.bigSegmentsStatus = none ∧
+    (evaluate env f).flagLookups = [] ∧ (evaluate env f).segLookups = [] ∧
+    (evaluate env f).bsQueries = [] ∧ (evaluate env f).memChecks = [] ∧
+    (evaluate env f).events = [] :=
+  evaluate_early_stage_untouched env f hc hon (po := .ok) (st1 := {})
+    (by simp [checkPrereqs, hp]) (Or.inr (Or.inr ⟨rfl, by rw [ht]; rfl⟩))
+
+
+/-- The model's prerequisite loop for the top flag returns what the Spec's returns. -/
+theorem checkPrereqs_model_out (env : Env) (f : Flag) :
+    (checkPrereqs (topRecM env) env f [] {}).1.toSpec = Spec.checkPrereqs (topRec env) env f [] :=
+  (checkPrereqs_refines
+    (evalFlag_refines (segFuel env.store) (distinctCount (env.store.flags.map (·.2.key)) + 1) env)
+    f [] {} (Consistent.empty env)).1
+
+/-- PREREQUISITE_FAILED, with the hypotheses of `evaluate_prereq_failed`: status and side channels
+are those left by the prerequisite loop; the flag's own targets, rules and their segments are not
+reached. -/
+theorem evaluate_prereq_failed_untouched (env : Env) (f : Flag) (hc : env.ctx ≠ .invalid)
+    (hon : f.on = true) (pre : List Prereq) (p : Prereq) (post : List Prereq)
+    (hps : f.prerequisites = pre ++ p :: post) (hpre : ∀ q ∈ pre, PrereqMet env f q)
+    (hp : PrereqUnmet env f p) :
+    let st1 := (checkPrereqs (topRecM env) env f [] {}).2
+    (evaluate env f).result.detail.reason.bigSegmentsStatus = st1.status ∧
+    (evaluate env f).flagLookups = st1.flagLookups ∧ (evaluate env f).segLookups = st1.segLookups ∧
+    (evaluate env f).bsQueries = st1.bsQueries ∧ (evaluate env f).memChecks = st1.memChecks ∧
+    (evaluate env f).events = st1.events := by
+  intro st1
+  have h := checkPrereqs_model_out env f
+  have h' : Spec.checkPrereqs (topRec env) env f [] = .failed p.key := by
+    rw [checkPrereqs_eq_loop]; exact prereq_first_unmet _ pre p post hps hpre hp
+  rw [h'] at h
+  refine evaluate_early_stage_untouched env f hc hon (po := (checkPrereqs (topRecM env) env f [] {}).1)
+    rfl (Or.inl ⟨p.key, ?_⟩)
+  revert h
+  cases (checkPrereqs (topRecM env) env f [] {}).1 <;> simp [PrereqOut.toSpec]
+
+/-- TARGET_MATCH after passing prerequisites: status and side channels are those left by the
+prerequisite loop; the flag's own rules and their segments are not reached. -/
+theorem evaluate_target_with_prereqs_untouched (env : Env) (f : Flag) (hc : env.ctx ≠ .invalid)
+    (hon : f.on = true) (hp : ∀ q ∈ f.prerequisites, PrereqMet env f q) {v : Int}
+    (ht : anyTargetMatch env.ctx f = some v) :
+    let st1 := (checkPrereqs (topRecM env) env f [] {}).2
+    (evaluate env f).result.detail.reason.bigSegmentsStatus = st1.status ∧
+    (evaluate env f).flagLookups = st1.flagLookups ∧ (evaluate env f).segLookups = st1.segLookups ∧
+    (evaluate env f).bsQueries = st1.bsQueries ∧ (evaluate env f).memChecks = st1.memChecks ∧
+    (evaluate env f).events = st1.events := by
+  intro st1
+  have h := checkPrereqs_model_out env f
+  rw [checkPrereqs_all_met hp] at h
+  refine evaluate_early_stage_untouched env f hc hon (po := (checkPrereqs (topRecM env) env f [] {}).1)
+    rfl (Or.inr (Or.inr ⟨?_, by rw [ht]; rfl⟩))
+  revert h
+  cases (checkPrereqs (topRecM env) env f [] {}).1 <;> simp [PrereqOut.toSpec]
+
+
+/-! ### A8. Non-vacuity of the strengthened statements -/
+
+section AuditExamples
+
+/-- A met prerequisite from a computed run (for the examples). -/
+theorem met_of_run {rec : Spec.FlagRec} {env : Env} {chain : List String} {p : Prereq} (pf : Flag)
+    (hf : env.store.findFlag p.key = some pf) (hch : chain.contains pf.key = false)
+    (hon : pf.on = true)
+    (h : (rec pf chain).map (fun r => (r.1.index, r.2)) = some (some p.variation, true)) :
+    Met rec env chain p := by
+  cases hr : rec pf chain with
+  | none => rw [hr] at h; cases h
+  | some r =>
+    obtain ⟨d, ok⟩ := r
+    rw [hr] at h
+    simp only [Option.map_some, Option.some.injEq, Prod.mk.injEq] at h
+    obtain ⟨h1, rfl⟩ := h
+    exact ⟨pf, d, hf, hch, hr, hon, h1⟩
+
+def exQ : Flag :=
+  { key := "q", on := true, variations := [.str "x", .str "y"], fallthrough := { variation := some 0 } }
+def exP : Flag := { key := "p", on := false }
+def exEnv2 : Env :=
+  { opts := {}, store := Store.ofLists [exP, exQ, { key := "f" }] [], bs := none,
+    ctx := .single { kind := "user", key := "alice" }, rx := fun _ _ => none }
+
+def badClause : Clause := { op := "in", values := [.str "x"] }
+
+/-- `exFlag` with the met prerequisite `q`. -/
+def exF (prs : List Prereq) : Flag := { exFlag with prerequisites := prs, offVariation := some 1 }
+
+theorem ex2_find_q : exEnv2.store.findFlag "q" = some exQ := by
+  simp [exEnv2, Store.findFlag, Store.ofLists, exP, exQ]
+theorem ex2_find_p : exEnv2.store.findFlag "p" = some exP := by
+  simp [exEnv2, Store.findFlag, Store.ofLists, exP]
+
+theorem ex2_met_q : Met (topRec exEnv2) exEnv2 ["f"] ⟨"q", 0⟩ :=
+  met_of_run exQ ex2_find_q (by decide) rfl (by decide)
+
+theorem ex2_unmet_p : Unmet (topRec exEnv2) exEnv2 ["f"] ⟨"p", 0⟩ :=
+  Or.inr ⟨exP, { reason := .off }, ex2_find_p, by decide, rfl, by decide⟩
+
+theorem ex2_aborts_f : Aborts (topRec exEnv2) exEnv2 ["f"] ⟨"f", 0⟩ :=
+  ⟨{ key := "f" }, by simp [exEnv2, Store.findFlag, Store.ofLists, exP, exQ], Or.inl (by decide)⟩
+
+theorem ex2_all_met : ∀ q ∈ (exF [⟨"q", 0⟩]).prerequisites, PrereqMet exEnv2 (exF [⟨"q", 0⟩]) q := by
+  intro q hq
+  rw [show q = ⟨"q", 0⟩ from List.mem_singleton.1 hq]
+  exact ex2_met_q
+
+theorem ex2_orgClause : Spec.clausesMatch (topSeg exEnv2) exEnv2 [] [orgClause] = .ok false := by
+  simp [Spec.clausesMatch, Spec.clauseMatch, orgClause, clauseMatchNoSeg, Ref.isDefined,
+    Ref.errOf, Res.ofExcept, exEnv2, Ctx.byKind, Ctx.individuals, normKind]
+
+/-- Prerequisites `q` (met), `p` (off: unmet), `zzz` (missing): PREREQUISITE_FAILED names `p`, the
+off variation 1 is served. -/
+example : DetailIs (evaluate exEnv2 (exF [⟨"q", 0⟩, ⟨"p", 0⟩, ⟨"zzz", 0⟩])).result.detail
+    { value := .str "b", index := some 1, reason := .prereqFailed "p" } :=
+  evaluate_prereq_failed exEnv2 (exF [⟨"q", 0⟩, ⟨"p", 0⟩, ⟨"zzz", 0⟩]) (by simp [exEnv2]) rfl
+    [⟨"q", 0⟩] ⟨"p", 0⟩ [⟨"zzz", 0⟩] rfl
+    (by intro q hq; rw [show q = ⟨"q", 0⟩ from List.mem_singleton.1 hq]; exact ex2_met_q)
+    ex2_unmet_p
+
+/-- A prerequisite that leads back to the flag itself aborts: MALFORMED_FLAG, although `q` is met. -/
+example : DetailIs (evaluate exEnv2 (exF [⟨"q", 0⟩, ⟨"f", 0⟩])).result.detail
+    (Detail.forError .malformedFlag) :=
+  evaluate_prereq_abort exEnv2 (exF [⟨"q", 0⟩, ⟨"f", 0⟩]) (by simp [exEnv2]) rfl
+    [⟨"q", 0⟩] ⟨"f", 0⟩ [] rfl
+    (by intro q hq; rw [show q = ⟨"q", 0⟩ from List.mem_singleton.1 hq]; exact ex2_met_q)
+    ex2_aborts_f
+
+/-- Prerequisite met, no target names `alice`, rule `r0` fails, rules `r1` and `r2` match:
+RULE_MATCH with index 1 and id `r1`. -/
+example : DetailIs (evaluate exEnv2 (exF [⟨"q", 0⟩])).result.detail
+    { value := .str "b", index := some 1, reason := .ruleMatch 1 "r1" } :=
+  evaluate_rule_match exEnv2 (exF [⟨"q", 0⟩]) (by simp [exEnv2]) rfl ex2_all_met
+    (by simp [anyTargetMatch, exF, exFlag])
+    [{ id := "r0", clauses := [orgClause], vr := { variation := some 0 } }]
+    { id := "r1", clauses := [],
+      vr := { variation := some 1,
+              rollout := { variations := [{ variation := 0, weight := 100000 }] } } }
+    [{ id := "r2", clauses := [], vr := { variation := some 0 } }] rfl
+    (by intro q hq; rw [List.mem_singleton.1 hq]; exact ex2_orgClause) rfl
+
+/-- Targeting off: OFF and the off variation, with every other reason field at its default. -/
+example : DetailIs (evaluate exEnv2 { exF [⟨"p", 0⟩] with on := false }).result.detail
+    { value := .str "b", index := some 1, reason := .off } :=
+  evaluate_off_full exEnv2 _ (by simp [exEnv2]) rfl
+
+/-- Prerequisite met and a user target list names `alice`: TARGET_MATCH although rules match. -/
+example : DetailIs
+    (evaluate exEnv2 { exF [⟨"q", 0⟩] with targets := [{ values := ["bob", "alice"], variation := 0 }] }).result.detail
+    { value := .str "a", index := some 0, reason := .targetMatch } :=
+  evaluate_target exEnv2 { exF [⟨"q", 0⟩] with targets := [{ values := ["bob", "alice"], variation := 0 }] } 0
+    (by simp [exEnv2]) rfl ex2_all_met
+    (by simp [anyTargetMatch, exF, exFlag, targetMatch, exEnv2, Ctx.byKind, Ctx.individuals, normKind,
+          defaultKind, Target.findKey, findKey])
+
+/-- The first rule whose clauses do not all evaluate to "no match" has a clause without attribute:
+MALFORMED_FLAG, although the next rule would match. -/
+example : DetailIs
+    (evaluate exEnv2 { exF [⟨"q", 0⟩] with
+      rules := [{ id := "r0", clauses := [orgClause] }, { id := "bad", clauses := [badClause] },
+                { id := "r2", clauses := [] }] }).result.detail
+    (Detail.forError .malformedFlag) :=
+  evaluate_rule_error exEnv2 _ (by simp [exEnv2]) rfl ex2_all_met
+    (by simp [anyTargetMatch, exF, exFlag])
+    [{ id := "r0", clauses := [orgClause] }] { id := "bad", clauses := [badClause] }
+    [{ id := "r2", clauses := [] }] .emptyAttr rfl
+    (by intro q hq; rw [List.mem_singleton.1 hq]; exact ex2_orgClause)
+    (by simp [RuleErrors, Spec.clausesMatch, Spec.clauseMatch, badClause, clauseMatchNoSeg,
+          Ref.isDefined, Res.ofExcept])
+
+/-- Every rule fails: FALLTHROUGH. -/
+example : DetailIs
+    (evaluate exEnv2 { exF [⟨"q", 0⟩] with rules := [{ id := "r0", clauses := [orgClause] }] }).result.detail
+    { value := .str "a", index := some 0, reason := .fallthrough } :=
+  evaluate_fallthrough exEnv2 _ (by simp [exEnv2]) rfl ex2_all_met
+    (by simp [anyTargetMatch, exF, exFlag])
+    (by intro q hq; rw [List.mem_singleton.1 hq]; exact ex2_orgClause)
+
+/-- The hypotheses of the five converses of `evaluate_reason_inv` are satisfiable. -/
+example :
+    (evaluate exEnv2 { exF [] with on := false }).result.detail.reason.kind = .off ∧
+    (evaluate exEnv2 (exF [⟨"q", 0⟩, ⟨"p", 0⟩])).result.detail.reason.kind = .prereqFailed ∧
+    (evaluate exEnv2 { exF [⟨"q", 0⟩] with targets := [{ values := ["alice"], variation := 0 }] }).result.detail.reason.kind
+      = .targetMatch ∧
+    (evaluate exEnv2 (exF [⟨"q", 0⟩])).result.detail.reason.kind = .ruleMatch ∧
+    (evaluate exEnv2 { exF [⟨"q", 0⟩] with rules := [] }).result.detail.reason.kind = .fallthrough := by
+  decide
+
+/-- `evaluate_isExperiment_rule_match`, `…_fallthrough`, `…_early`: the kind hypotheses hold for
+concrete flags, here with a tracked rule. -/
+example :
+    (evaluate exEnv2 { exF [⟨"q", 0⟩] with rules := [{ id := "t", trackEvents := true, vr := { variation := some 0 } }] }).result.isExperiment = true ∧
+    (evaluate exEnv2 (exF [⟨"q", 0⟩, ⟨"p", 0⟩])).result.isExperiment = false := by
+  decide
+
+/-- The prerequisite `q` of the examples, evaluated on its own, serves the required variation. -/
+example : ∃ pf, exEnv2.store.findFlag "q" = some pf ∧ pf.key ≠ "f" ∧ pf.on = true ∧
+    (evaluate exEnv2 pf).result.detail.index = some 0 :=
+  PrereqMet.standalone (f := exF [⟨"q", 0⟩]) (by simp [exEnv2]) ex2_met_q
+
+/-- An off flag with a prerequisite: nothing is looked up (the prerequisite neither), no status is
+reported. -/
+example :
+    (evaluate exEnv2 { exF [⟨"q", 0⟩] with on := false }).result.detail.reason.bigSegmentsStatus = none ∧
+    (evaluate exEnv2 { exF [⟨"q", 0⟩] with on := false }).flagLookups = [] :=
+  let h := evaluate_off_untouched exEnv2 { exF [⟨"q", 0⟩] with on := false } (by simp [exEnv2]) rfl
+  ⟨h.1, h.2.1⟩
+
+/-- PREREQUISITE_FAILED (hypotheses as in the example above): the side channels are the
+prerequisite loop's. -/
+example :
+    (evaluate exEnv2 (exF [⟨"q", 0⟩, ⟨"p", 0⟩, ⟨"zzz", 0⟩])).flagLookups =
+      (checkPrereqs (topRecM exEnv2) exEnv2 (exF [⟨"q", 0⟩, ⟨"p", 0⟩, ⟨"zzz", 0⟩]) [] {}).2.flagLookups :=
+  (evaluate_prereq_failed_untouched exEnv2 (exF [⟨"q", 0⟩, ⟨"p", 0⟩, ⟨"zzz", 0⟩]) (by simp [exEnv2]) rfl
+    [⟨"q", 0⟩] ⟨"p", 0⟩ [⟨"zzz", 0⟩] rfl
+    (by intro q hq; rw [show q = ⟨"q", 0⟩ from List.mem_singleton.1 hq]; exact ex2_met_q)
+    ex2_unmet_p).2.1
+
+/-- … and concretely: `q` and `p` were looked up, `zzz` was not. -/
+example : (evaluate exEnv2 (exF [⟨"q", 0⟩, ⟨"p", 0⟩, ⟨"zzz", 0⟩])).flagLookups = ["q", "p"] := by
+  decide
+
+/-- TARGET_MATCH after a met prerequisite: the side channels are the prerequisite loop's. -/
+example :
+    (evaluate exEnv2 { exF [⟨"q", 0⟩] with targets := [{ values := ["alice"], variation := 0 }] }).segLookups =
+      (checkPrereqs (topRecM exEnv2) exEnv2
+        { exF [⟨"q", 0⟩] with targets := [{ values := ["alice"], variation := 0 }] } [] {}).2.segLookups :=
+  (evaluate_target_with_prereqs_untouched exEnv2
+    { exF [⟨"q", 0⟩] with targets := [{ values := ["alice"], variation := 0 }] } (by simp [exEnv2]) rfl
+    ex2_all_met (v := 0)
+    (by simp [anyTargetMatch, exF, exFlag, targetMatch, exEnv2, Ctx.byKind, Ctx.individuals, normKind,
+          defaultKind, Target.findKey, findKey])).2.2.1
+
+/-- No prerequisites, target names `alice`: nothing at all is consulted. -/
+example :
+    (evaluate exEnv2 { exF [] with targets := [{ values := ["alice"], variation := 0 }] }).result.detail.reason.bigSegmentsStatus
+      = none :=
+  (evaluate_target_untouched exEnv2 { exF [] with targets := [{ values := ["alice"], variation := 0 }] }
+    (by simp [exEnv2]) rfl rfl (v := 0)
+    (by simp [anyTargetMatch, exF, exFlag, targetMatch, exEnv2, Ctx.byKind, Ctx.individuals, normKind,
+          defaultKind, Target.findKey, findKey])).1
+
+/-- RULE_MATCH on the first matching rule `r1` (hypotheses as in the example above): `IsExperiment` is
+that rule's `trackEvents` or the experiment bit. -/
+example :
+    (evaluate exEnv2 (exF [⟨"q", 0⟩])).result.isExperiment =
+      ((evaluate exEnv2 (exF [⟨"q", 0⟩])).result.detail.reason.inExperiment || false) :=
+  evaluate_isExperiment_rule_match exEnv2 (exF [⟨"q", 0⟩]) (by simp [exEnv2]) rfl ex2_all_met
+    (by simp [anyTargetMatch, exF, exFlag])
+    [{ id := "r0", clauses := [orgClause], vr := { variation := some 0 } }]
+    { id := "r1", clauses := [],
+      vr := { variation := some 1,
+              rollout := { variations := [{ variation := 0, weight := 100000 }] } } }
+    [{ id := "r2", clauses := [], vr := { variation := some 0 } }] rfl
+    (by intro q hq; rw [List.mem_singleton.1 hq]; exact ex2_orgClause) rfl (by decide)
+
+end AuditExamples
+
 end LD.C02
 
 #print axioms LD.C02.off
@@ -439,3 +1659,37 @@ end LD.C02
 #print axioms LD.C02.getOffValue_undefined
 #print axioms LD.C02.evaluate_off
 #print axioms LD.C02.evaluate_target_match
+#print axioms LD.C02.prereq_first_aborts
+#print axioms LD.C02.prereq_malformed_inv
+#print axioms LD.C02.rule_error
+#print axioms LD.C02.rulesLoop_inv
+#print axioms LD.C02.evalBody_iff_stage
+#print axioms LD.C02.detailIs_of_spec
+#print axioms LD.C02.spec_top_some
+#print axioms LD.C02.evaluate_of_stage
+#print axioms LD.C02.evaluate_decision_order
+#print axioms LD.C02.StageOf.classify
+#print axioms LD.C02.rule_match_inv
+#print axioms LD.C02.evaluate_reason_inv
+#print axioms LD.C02.evaluate_off_full
+#print axioms LD.C02.evaluate_prereq_failed
+#print axioms LD.C02.evaluate_prereq_abort
+#print axioms LD.C02.evaluate_target
+#print axioms LD.C02.evaluate_rule_match
+#print axioms LD.C02.evaluate_rule_error
+#print axioms LD.C02.evaluate_fallthrough
+#print axioms LD.C02.PrereqMet.standalone
+#print axioms LD.C02.PrereqUnmet.standalone
+#print axioms LD.C02.evaluate_isExperiment_eq
+#print axioms LD.C02.evaluate_isExperiment_of
+#print axioms LD.C02.StageOf.inExperiment_kinds
+#print axioms LD.C02.evaluate_isExperiment_early
+#print axioms LD.C02.evaluate_isExperiment_rule_match
+#print axioms LD.C02.evaluate_isExperiment_fallthrough
+#print axioms LD.C02.evaluate_of_body
+#print axioms LD.C02.evaluate_off_untouched
+#print axioms LD.C02.evaluate_early_stage_untouched
+#print axioms LD.C02.evaluate_target_untouched
+#print axioms LD.C02.evaluate_prereq_failed_untouched
+#print axioms LD.C02.evaluate_target_with_prereqs_untouched
+#print axioms LD.C02.ruleOutcome_model
